@@ -19,7 +19,8 @@ Record case := mkcase {
   c_stuck : bool;              (* the watchdog fired: some goroutine never finished *)
   c_coherent : bool;           (* live cache = cache rebuilt from git (excerpts, snapshots, queries) *)
   c_stale : list nat;          (* once the goroutines are done, before the flush: the bugs whose excerpt in the cache is not
-                                  the excerpt of the entity the cache hands out (staged operations included) *)
+                                  the excerpt of the entity the cache hands out (staged operations included), or whose texts
+                                  in the full-text index are not those of that entity (both are written by entityUpdated) *)
   c_fatal : nat }.             (* part C18r: unsynchronised accesses to a Go map reported by the race detector: each is a
                                   'fatal error: concurrent map read and map write' (process crash) under the wrong timing *)
 
